@@ -147,6 +147,51 @@ Proof.
   - reflexivity.
 Qed.
 
+(* the spec's own text state of formats 10/11 (Spec.Tile.centre_tstate) carries the metrics the renderer uses *)
+Lemma text_font_of_eq : the_font (s_text (the_style t)) = text_font_of t.
+Proof.
+  unfold the_style, fill_style, text_font_of, the_font.
+  destruct (x_style t) as [st|]; [destruct (s_text st)|]; reflexivity.
+Qed.
+Lemma ufs_of_eq : s_ufs (the_style t) = ufs_of t.
+Proof. unfold the_style, fill_style, ufs_of. destruct (x_style t) as [st|]; reflexivity. Qed.
+Lemma fixed_plain : plain_mode t = true -> s_fixed (the_style t) = false.
+Proof.
+  unfold plain_mode, the_style, fill_style. destruct (x_style t) as [st|]; cbn [s_fixed empty_style]; [|reflexivity].
+  intros Hp. destruct (s_fixed st); [discriminate | reflexivity].
+Qed.
+Lemma land_mod x k : 0 <= k -> Z.land x (Z.ones k) = x mod 2 ^ k.
+Proof. intros. apply Z.land_ones; auto. Qed.
+
+Lemma tsT_centre : plain_mode t = true -> same_metrics tsT (centre_tstate t).
+Proof.
+  intros Hp.
+  pose proof sa_range as A. pose proof sb_range as B.
+  assert (E7 : pffc p = f_face (text_font_of t) mod 8).
+  { change (pffc p) with (Z.land (f_face (the_font (s_text (the_style t)))) 7). rewrite text_font_of_eq. apply (land_mod _ 3). lia. }
+  assert (EH : pfH p = f_w (text_font_of t) mod 4).
+  { change (pfH p) with (Z.land (f_w (the_font (s_text (the_style t)))) 3). rewrite text_font_of_eq. apply (land_mod _ 2). lia. }
+  assert (EV : pfV p = f_h (text_font_of t) mod 4).
+  { change (pfV p) with (Z.land (f_h (the_font (s_text (the_style t)))) 3). rewrite text_font_of_eq. apply (land_mod _ 2). lia. }
+  assert (Ez : tsz = clamp14 (ufs_of t)).
+  { unfold tsz, constrain, clamp14. rewrite ufs_of_eq.
+    destruct (Z.ltb_spec (ufs_of t) 1); [lia|]. destruct (Z.gtb_spec (ufs_of t) 4); lia. }
+  unfold same_metrics, centre_tstate. cbn [tfont tprop tspacing tsh tsv twrap].
+  unfold tsT, set_text_size, set_font, tile_t0, set_wrap, set_spacing. cbn [tfont tprop tspacing tsh tsv twrap].
+  split; [unfold norm_font; rewrite E7; reflexivity|].
+  split; [change (pprop p) with (negb (s_fixed (the_style t))); rewrite (fixed_plain Hp); reflexivity|].
+  split.
+  { pose proof (spacing_zero Hp) as S0.
+    unfold tsA, set_text_size, set_text_color, set_font, tile_t0, set_wrap, set_spacing in S0. cbn [tspacing] in S0.
+    symmetry. exact S0. }
+  split.
+  { unfold qint. destruct (Z.gtb_spec sa 0); [|lia]. unfold sa, qint. rewrite EH, Ez.
+    destruct (Z.gtb_spec (f_w (text_font_of t) mod 4) 0); destruct (Z.ltb_spec 0 (f_w (text_font_of t) mod 4)); lia. }
+  split; [|reflexivity].
+  unfold qint. destruct (Z.eqb_spec sb 0); [lia|]. unfold sb, qint. rewrite EV, Ez.
+  destruct (Z.gtb_spec (f_h (text_font_of t) mod 4) 0); destruct (Z.ltb_spec 0 (f_h (text_font_of t) mod 4)); lia.
+Qed.
+
 (* the image after the prologue and SetFont; SetTextColor; SetTextSize *)
 Definition i_text (bg pc : Z) : img :=
   run_ops (run_ops (canvas W H bg pc) (prologue false p))
@@ -234,11 +279,11 @@ Proof. rewrite Z.shiftr_div_pow2 by lia. reflexivity. Qed.
 
 Theorem oneline_centred t W H s b i :
   0 <= W -> 0 <= H -> 0 <= b -> x_inv t = false -> tile_filled t W H s b = Ok i ->
-  oneline_ok t W H s b (idata i) (str_width (it i) (x_title t)) (line_height (it i)) (tsh (it i)) = true.
+  oneline_ok t W H s b (idata i) = true.
 Proof.
   intros HW HH Hb Hinv Ht.
-  unfold oneline_ok.
-  destruct (oneline_applies t (active_w W s b) (active_h H s b) (str_width (it i) (x_title t)) (line_height (it i))) eqn:Happ;
+  unfold oneline_ok, oneline_ok_m, line_width, line_h, size_step.
+  destruct (oneline_applies t (active_w W s b) (active_h H s b) (str_width (centre_tstate t) (x_title t)) (line_height (centre_tstate t))) eqn:Happ;
     [|reflexivity].
   cbn [negb orb].
   unfold oneline_applies in Happ.
@@ -269,14 +314,14 @@ Proof.
   rewrite <- Et1 in Hsz, Hwr, Hlh.
   destruct (text_step i1 xo yo (x_title t) Wf1 Hwr Hsz Hlh (no_lf_of_str _ Hnl)) as (Wf2 & Eg2 & Sm2 & Ink).
   set (i2 := run_ops i1 [OSetCursor xo yo; OText (x_title t)]) in *.
-  rewrite epilogue_it in *.
+  try rewrite epilogue_it in *.
   rewrite Et1 in Sm2, Ink.
   (* metrics of the final state = metrics of the tracked state *)
-  assert (Esw : str_width (it i2) (x_title t) = str_width tsT (x_title t)).
-  { rewrite (str_width_sm tsA (it i2) _ Sm2). apply str_width_sm. exact Sm. }
-  assert (Elh : line_height (it i2) = line_height tsT).
-  { rewrite (line_height_sm tsA (it i2) Sm2). apply line_height_sm. exact Sm. }
-  assert (Esh : tsh (it i2) = tsh tsA) by (destruct Sm2 as (_ & _ & _ & D & _); exact D).
+  pose proof (tsT_centre t W H s b Hpl) as SmC. fold p tsz sa sb tsT in SmC.
+  assert (Esw : str_width (centre_tstate t) (x_title t) = str_width tsT (x_title t)) by (apply str_width_sm; exact SmC).
+  assert (Elh : line_height (centre_tstate t) = line_height tsT) by (apply line_height_sm; exact SmC).
+  assert (Esh : tsh (centre_tstate t) = tsh tsA).
+  { destruct SmC as (_ & _ & _ & D & _). destruct Sm as (_ & _ & _ & D' & _). congruence. }
   rewrite Esw, Elh, Esh in *.
   rewrite (str_width_sm tsT tsA _ Sm), (line_height_sm tsT tsA Sm) in Ink.
   rewrite (active_w_eq t W H s b Hb), (active_h_eq t W H s b Hb) in Happ. rewrite (active_w_eq t W H s b Hb).
@@ -309,11 +354,11 @@ Qed.
 
 Theorem twoline_centred t W H s b i :
   0 <= W -> 0 <= H -> 0 <= b -> x_inv t = false -> tile_filled t W H s b = Ok i ->
-  twoline_ok t W H s b (idata i) (str_width (it i) (x_l1 t)) (str_width (it i) (x_l2 t)) (line_height (it i)) (tsh (it i)) = true.
+  twoline_ok t W H s b (idata i) = true.
 Proof.
   intros HW HH Hb Hinv Ht.
-  unfold twoline_ok.
-  destruct (twoline_applies t (active_w W s b) (active_h H s b) (str_width (it i) (x_l1 t)) (str_width (it i) (x_l2 t)) (line_height (it i))) eqn:Happ;
+  unfold twoline_ok, twoline_ok_m, line_width, line_h, size_step.
+  destruct (twoline_applies t (active_w W s b) (active_h H s b) (str_width (centre_tstate t) (x_l1 t)) (str_width (centre_tstate t) (x_l2 t)) (line_height (centre_tstate t))) eqn:Happ;
     [|reflexivity].
   cbn [negb orb].
   unfold twoline_applies in Happ.
@@ -355,16 +400,15 @@ Proof.
   destruct (sm_sizes tsA (it i2) Sm2 Hsz0 Hwr0 Hlh0) as (Hsz2 & Hwr2 & Hlh2).
   destruct (text_step i2 xo2 yo2 (x_l2 t) Wf2 Hwr2 Hsz2 Hlh2 (no_lf_of_str _ Hnl2)) as (Wf3 & Eg3 & Sm3 & Ink2).
   set (i3 := run_ops i2 [OSetCursor xo2 yo2; OText (x_l2 t)]) in *.
-  rewrite epilogue_it in *.
+  try rewrite epilogue_it in *.
   pose proof (same_metrics_trans _ _ _ Sm2 Sm3) as Sm23.
   (* all metrics are those of the tracked state *)
-  assert (Esw1 : str_width (it i3) (x_l1 t) = str_width tsT (x_l1 t)).
-  { rewrite (str_width_sm tsA (it i3) _ Sm23). apply str_width_sm. exact Sm. }
-  assert (Esw2 : str_width (it i3) (x_l2 t) = str_width tsT (x_l2 t)).
-  { rewrite (str_width_sm tsA (it i3) _ Sm23). apply str_width_sm. exact Sm. }
-  assert (Elh : line_height (it i3) = line_height tsT).
-  { rewrite (line_height_sm tsA (it i3) Sm23). apply line_height_sm. exact Sm. }
-  assert (Esh : tsh (it i3) = tsh tsA) by (destruct Sm23 as (_ & _ & _ & D & _); exact D).
+  pose proof (tsT_centre t W H s b Hpl) as SmC. fold p tsz sa sb tsT in SmC.
+  assert (Esw1 : str_width (centre_tstate t) (x_l1 t) = str_width tsT (x_l1 t)) by (apply str_width_sm; exact SmC).
+  assert (Esw2 : str_width (centre_tstate t) (x_l2 t) = str_width tsT (x_l2 t)) by (apply str_width_sm; exact SmC).
+  assert (Elh : line_height (centre_tstate t) = line_height tsT) by (apply line_height_sm; exact SmC).
+  assert (Esh : tsh (centre_tstate t) = tsh tsA).
+  { destruct SmC as (_ & _ & _ & D & _). destruct Sm as (_ & _ & _ & D' & _). congruence. }
   rewrite Esw1, Esw2, Elh, Esh in *.
   rewrite (str_width_sm tsT tsA _ Sm), (line_height_sm tsT tsA Sm) in Ink1.
   rewrite (str_width_sm tsA (it i2) _ Sm2), (line_height_sm tsA (it i2) Sm2) in Ink2.
